@@ -184,6 +184,10 @@ def run_api(case):
                 with open(targets[k], "wb") as f:
                     f.write(SENTINEL)
         before = {p: (open(p, "rb").read() if os.path.isfile(p) else None) for p in targets}
+        decoys = [targets[0] + sfx for sfx in case.get("decoys", [])]   # pre-existing neighbours: must never be touched
+        for p in decoys:
+            with open(p, "wb") as f:
+                f.write(SENTINEL)
         pk = case["pk"]
         if pk == "str":
             arg = targets[0]
@@ -238,7 +242,9 @@ def run_api(case):
         for fpath in sc.files:
             fpath = os.path.abspath(fpath)
             prompt_ids.append(targets.index(fpath) if fpath in targets else -1)
-        extra = sorted(set(os.listdir(d)) - {os.path.basename(p) for p in targets})
+        extra = sorted(set(os.listdir(d)) - {os.path.basename(p) for p in targets} - {os.path.basename(p) for p in decoys})
+        extra += ["(pre-existing neighbour overwritten) " + os.path.basename(p) for p in decoys
+                  if not os.path.isfile(p) or open(p, "rb").read() != SENTINEL]
         return {"prompts": [[i, a] for i, a in zip(prompt_ids, sc.prompts)], "n_prompts": len(sc.prompts),
                 "n_warned": len(sc.files), "changed": changed, "fresh": fresh, "error": err, "extra_files": extra,
                 "handle_len": (len(handle.getvalue()) if handle is not None and not handle.closed else None)}
@@ -531,6 +537,11 @@ def api_cases(ctx):
                         if pk == "handle" and (a != "n" or not ex):
                             continue
                         add(w, pk, [ex], [a], conf, **kw)
+    # output names without an extension, next to pre-existing files that differ only by an extension
+    for w, kw in (("main_config.generate", {"ext": ""}), ("write_tum_trajectory_file", {"ext": ""}), ("save_res_file", {"ext": ""})):
+        for ex in (True, False):
+            for a in ("n", "", "y"):
+                add(w, "str", [ex], [a], True, decoys=[".json", ".tum", ".zip"], **kw)
     # per-figure export: two files, each with its own prompt
     for variant, ext in (("png", ".png"), ("pdf_split", ".pdf")):
         for pk in ("str", "path"):
